@@ -24,8 +24,18 @@ KIT_C_END
 #define OP_LENGTH 6
 #define OP_SETP 7
 
-static sexp operand(int kind) {
-  if (kind == 0) return kit_any_fixnum();
+/* A fixnum operand whose partner branch is heavy is a constant from the boundary lattice
+   (XV / YV): with a symbolic fixnum the kind tests of the real code stay symbolic and symex
+   wanders through the (infeasible) bignum branches with garbage lengths (DESIGN R10). */
+#define KIT_FIXNUM_SYMBOLIC 0x7fffffff
+#ifndef XV
+#define XV KIT_FIXNUM_SYMBOLIC
+#endif
+#ifndef YV
+#define YV KIT_FIXNUM_SYMBOLIC
+#endif
+static sexp operand(int kind, sexp_sint_t cval) {
+  if (kind == 0) return cval == KIT_FIXNUM_SYMBOLIC ? kit_any_fixnum() : sexp_make_fixnum(cval);
   sexp b = kit_any_bignum(kind, 0);
   __CPROVER_assume(wide_canonical(b));
   return b;
@@ -46,10 +56,10 @@ static sexp_sint_t wide_length(wide v) {
 
 void harness(void) {
   sexp ctx = kit_ctx();
-  sexp x = operand(XK);
+  sexp x = operand(XK, XV);
   wide vx = wide_of(x);
 #if OP == OP_AND || OP == OP_IOR || OP == OP_XOR
-  sexp y = operand(YK);
+  sexp y = operand(YK, YV);
   wide vy = wide_of(y), expect;
   sexp res;
 #if OP == OP_AND
